@@ -117,6 +117,46 @@ theorem nested_call_transparent (inner k : Prog) (s : Slot) (st : St) (h : TopCa
   rw [show ({ st with trace := st.trace } : St) = st from rfl] at b
   exact ⟨a.1.trans b.1.symm, a.2.1.trans b.2.1.symm, a.2.2.1.trans b.2.2.1.symm, a.2.2.2.trans b.2.2.2.symm⟩
 
+/-! ## The value guard of `MA::next_value_seed` (repair of `C16-static-error-at-map-value-reported-at-key`) -/
+
+/-- a static Serde error raised while a mapping VALUE is read — directly, i.e. not under a deeper guard —
+carries the value's use-site location `vloc`: not the key location `kloc`, and nothing of what the container
+guard, an earlier key or any enclosing deserialization had put into the cell (`s`, `st` arbitrary), whatever
+the visitor did between `next_key` and `next_value` (`pre`: any number of probes). -/
+theorem static_error_in_value_at_value (kloc vloc : Loc) (n : Nat) (k : Prog) (s : Slot) (st : St) :
+    (exec (.entry kloc (Nat.repeat .probe n) vloc .serr k) s st).1 = .err vloc := by
+  have hp : ∀ (n : Nat) (s : Slot) (st : St),
+      (exec (Nat.repeat .probe n (.guard vloc .serr k)) s st).1 = .err vloc := by
+    intro n
+    induction n with
+    | zero => intro s st; simp [Nat.repeat, exec, andThen, effLoc]
+    | succ n ih => intro s st; simpa [Nat.repeat, exec] using ih s _
+  cases s <;> simpa [Prog.entry, exec] using hp n _ _
+
+/-- … and the same error raised in a SEQUENCE element (guard of `SA::next_element_seed`), for comparison: the
+element's location. Mapping values and sequence elements now follow one rule. -/
+theorem static_error_in_element_at_element (eloc : Loc) (k : Prog) (s : Slot) (st : St) :
+    (exec (.guard eloc .serr k) s st).1 = .err eloc := by
+  simp [exec, andThen, effLoc]
+
+/-- the repair leaves every OTHER use of the cell alone: once the value has been read (any `body` that
+succeeds; no well-nestedness hypothesis is needed, the guard's `Drop` writes back what it saved), the cell
+holds the key location again — a static error raised after the entry (`missing_field` after the last key,
+`unknown_field` / `duplicate_field`-style errors of the visitor) is located at the key, as before. -/
+theorem static_error_after_value_at_key (kloc vloc : Loc) (body : Prog) (s : Slot) (st : St)
+    (hb : (exec body none { st with fallback := some vloc }).1 = .ok) :
+    (exec (.entry kloc (fun k => k) vloc body .serr) s st).1 = .err kloc := by
+  cases s <;> simp [Prog.entry, exec, andThen, hb, effLoc]
+
+/-- the cell seen by whatever follows the value (the next key, the visitor's tail, the `Drop` of the map
+access) is the one the key guard had set: the value guard is invisible outside the value, on every exit path
+of the value. -/
+theorem value_guard_invisible_outside (vloc : Loc) (body : Prog) (s : Slot) (st : St) :
+    (exec (.guard vloc body .done) s st).2.2.fallback = st.fallback ∧
+    (exec (.guard vloc body .done) s st).2.1 = s := by
+  simp only [exec, andThen]
+  cases (exec body none { st with fallback := some vloc }).1 <;> simp
+
 /-! ## Example programs (the witnesses of the former findings) -/
 
 /-- `from_str::<NonZeroU8>("0")`: `deserialize_u8` → `visit_u8(0)` → `Error::invalid_value` (a static
@@ -125,18 +165,20 @@ def callNonZero : Prog := .scope false .serr .done
 
 def loc (line col : Nat) : Loc := line * 1048576 + col
 
-/-- a struct field `RcAnchor<{v: P}>` on a node with anchor `id` -/
-def rcField (id : Nat) (container vkey : Loc) (k : Prog) : Prog :=
-  .ctx .rc (some id) (.strong .rc (.guard container (.ma false (.key vkey (.probe .done)) .done) .done) .done) k
+/-- a struct field `RcAnchor<{v: P}>` on a node with anchor `id`: container guard, key `v` at `vkey`, its value
+(one probe) under the value guard at `vval` (the scalar's own start; through an alias the alias token) -/
+def rcField (id : Nat) (container vkey vval : Loc) (k : Prog) : Prog :=
+  .ctx .rc (some id) (.strong .rc
+    (.guard container (.ma false (.entry vkey (fun k => k) vval (.probe .done) .done) .done) .done) .done) k
 
 /-- `x: &a {v: 1}` / `n: …` / `y: *a` deserialized into `struct { x: RcAnchor<_>, n: N, y: RcAnchor<_> }`;
-`middle` = what `N::deserialize` does -/
+`middle` = what `N::deserialize` does (it runs under the value guard of `n`, at line 2 column 4) -/
 def outerDoc (middle : Prog → Prog) : Prog :=
   .scope false
     (.guard (loc 1 1) (.ma false
-      (.key (loc 1 1) (rcField 1 (loc 1 7) (loc 1 8)
-      (.key (loc 2 1) (middle
-      (.key (loc 3 1) (rcField 1 (loc 3 4) (loc 1 8) .done)))))) .done) .done) .done
+      (.entry (loc 1 1) (fun k => k) (loc 1 7) (rcField 1 (loc 1 7) (loc 1 8) (loc 1 11) .done)
+      (.entry (loc 2 1) (fun k => k) (loc 2 4) (middle .done)
+      (.entry (loc 3 1) (fun k => k) (loc 3 4) (rcField 1 (loc 3 4) (loc 1 8) (loc 3 4) .done) .done))) .done) .done) .done
 
 /-- `N::deserialize` calls `from_str` -/
 def withNestedCall : Prog := outerDoc fun k => .nest callNonZero k
@@ -147,14 +189,25 @@ def withoutNestedCall : Prog := outerDoc fun k => k
 def recDoc (middle : Prog → Prog) : Prog :=
   .scope false
     (.guard (loc 1 1) (.ma false
-      (.key (loc 1 1) (.ctx .rcRec (some 1) (.strong .rcRec
+      (.entry (loc 1 1) (fun k => k) (loc 2 3) (.ctx .rcRec (some 1) (.strong .rcRec
         (.guard (loc 2 3) (.ma false
-          (.key (loc 2 3) (.probe
-          (.key (loc 3 3) (middle
-          (.key (loc 4 3) (.recAlias 1 (loc 4 7) (.ctx .rcRec (some 1) (.weak .rcRec .done .done) .done))))))) .done) .done)
-        .done) .done)) .done) .done) .done
+          (.entry (loc 2 3) (fun k => k) (loc 2 7) (.probe .done)
+          (.entry (loc 3 3) (fun k => k) (loc 3 6) (middle .done)
+          -- the alias is met by the look-ahead of `next_value_seed`, before the value guard
+          (.entry (loc 4 3) (.recAlias 1 (loc 4 7)) (loc 4 7)
+            (.ctx .rcRec (some 1) (.weak .rcRec .done .done) .done) .done))) .done) .done)
+        .done) .done) .done) .done) .done) .done
 
 /-! ## Non-vacuity: the hypotheses hold on the programs the differential run uses -/
+
+/-- `k:   0` into `struct { k: NonZeroU8 }` (the witness of the finding): key at 1:1, value at 1:6 — the static
+error is reported at the value; with a second, missing field the error after the entry is at the key -/
+example : (runCall (.scope false (.guard (loc 1 1) (.ma false
+    (.entry (loc 1 1) (fun k => k) (loc 1 6) .serr .done) .done) .done) .done) Tls.init).1.out = .err (loc 1 6) := by decide
+example : (runCall (.scope false (.guard (loc 1 1) (.ma false
+    (.entry (loc 1 1) (fun k => k) (loc 1 6) (.probe .done) .serr) .done) .done) .done) Tls.init).1.out = .err (loc 1 1) := by decide
+/-- hypothesis of `static_error_after_value_at_key` on a value with its own map access and probes -/
+example : (exec (rcField 1 (loc 1 7) (loc 1 8) (loc 1 11) .done) none { fallback := some (loc 1 7) }).1 = .ok := by decide
 
 example : TopCall withNestedCall ∧ TopCall withoutNestedCall ∧ TopCall (recDoc fun k => k) ∧ TopCall callNonZero := by decide
 example : tight false withNestedCall = true ∧ tight false (recDoc fun k => .nest callNonZero k) = true := by decide
@@ -214,5 +267,10 @@ alphabet gives, after every history of length <= 3 (thorough 4) and after random
 thread-locals read "clean" after every call; nested at 4 host positions every call still gives that result,
 and the enclosing call gives the result it gives with a non-parsing `Deserialize` in that place.
 -/
+
+#print axioms static_error_in_value_at_value
+#print axioms static_error_in_element_at_element
+#print axioms static_error_after_value_at_key
+#print axioms value_guard_invisible_outside
 
 end SaphyrVerif.Tls
